@@ -466,13 +466,24 @@ static base_array<T> _power(const base_array<T>& x, int n) {
     return r;
 }
 
+static real_t _inverse(const real_t& x) {
+    return 1.0 / x;
+}
+
+//conj(x)/|x|^2 without forming |x|^2, which underflows/overflows long before 1/x does
+static cmplx_t _inverse(const cmplx_t& x) {
+    const real_t a = abs(x);
+    const cmplx_t u = x / a;
+    return cmplx_t{u.re / a, -u.im / a};
+}
+
 template<typename T>
 static T _power(const T& x, int n) {
     if (n == 2) {
         return x * x;
     }
     if (n == -1) {
-        return 1.0 / x;
+        return _inverse(x);
     }
     if (n == 0) {
         return 1;
